@@ -56,7 +56,7 @@ T0 = 0  # abs times are logged in microseconds since the harness' t0
 def stream(container, tracks, versions, base, step, per=1, **kw):
     s = {"container": container, "tracks": tracks, "trackIds": kw.pop("trackIds", []), "versions": versions, "base": base, "step": step,
          "perSeg": per, "ptsOff": [], "frags": 0, "byteRange": False, "noStart": False, "query": "", "absUrl": False, "dateTime": False,
-         "dtJump": 0, "name": "", "lang": "", "default": False, "segDurMs": 20 * per, "ll": False, "canSkip": False, "uriStyle": ""}
+         "dtJump": 0, "name": "", "lang": "", "default": False, "segDurMs": 20 * per, "ll": False, "canSkip": False, "uriStyle": "", "hintRanges": False}
     s.update(kw)
     return s
 
@@ -175,7 +175,8 @@ def fetch_scenarios(hists, rnd, limit):
         vs.append(ver(vs[-1]["ms"], vs[-1]["n"], False, "", 0, wait=60))      # the hint disappears: the run ends
         tr = [H264] + ([opus()] if rnd.random() < 0.5 else [])
         st = stream("fmp4", tr, vs, [900000 if t["codec"] == "h264" else 480000 for t in tr], [step_of(t, "fmp4") for t in tr], 2,
-                    ll=True, canSkip=rnd.random() < 0.5, query=rnd.choice(["", "tok=1"]), segDurMs=40, dateTime=rnd.random() < 0.5)
+                    ll=True, canSkip=rnd.random() < 0.5, query=rnd.choice(["", "tok=1"]), segDurMs=40, dateTime=rnd.random() < 0.5,
+                    hintRanges=(i % 2 == 1))      # every other stream keeps its parts as byte ranges of one file
         dirs = rnd.random() < 0.4
         if dirs:
             st["uriStyle"] = rnd.choice(["rel", "abspath", "absurl", "sub"])
@@ -209,7 +210,8 @@ def time_scenarios(rnd, count):
             ids = list(range(1, len(tr) + 1))
             rnd.shuffle(ids)
             st = stream("fmp4", tr, vs, bases, [step_of(t, "fmp4") for t in tr], 2, ll=True, canSkip=rnd.random() < 0.5,
-                        query=rnd.choice(["", "tok=1"]), segDurMs=40, dateTime=rnd.random() < 0.6, trackIds=ids)
+                        query=rnd.choice(["", "tok=1"]), segDurMs=40, dateTime=rnd.random() < 0.6, trackIds=ids,
+                        hintRanges=rnd.random() < 0.5)
             scs.append(scenario("media", [st], "timell%d" % k))
             continue
         container = rnd.choice(["ts", "fmp4"])
@@ -292,6 +294,9 @@ def fault_scenarios(binary, tier):
         "ll": ("media", [stream("fmp4", [H264, opus()], [ver(2, 3, False, "", 11), ver(2, 3, False, "", 12), ver(3, 3, False, "", 13),
                                                         ver(3, 3, False, "", 0)], [900000, 480000], [1800, 960], 2, ll=True, segDurMs=40)]),
     }
+    layouts["llr"] = ("media", [stream("fmp4", [H264, a48], [ver(2, 3, False, "", 11), ver(2, 3, False, "", 12), ver(3, 3, False, "", 13),
+                                                             ver(3, 3, False, "", 0)], [900000, 480000], [1800, 1024], 2, ll=True,
+                                       canSkip=True, hintRanges=True, segDurMs=40, dateTime=True)])
     scs = []
     # renditions in a different container than the leading stream (no content fault needed: "identity" leaves the bytes alone)
     for lname, (c0, c1) in (("mixA", ("fmp4", "ts")), ("mixB", ("ts", "fmp4"))):
